@@ -147,7 +147,7 @@ P["C09"] = dict(
         ("Props.C09.C09_never_rejects_legal", "every inhabited type graph passes the recursion check"),
         ("Props.C09.C09_full_false", "the converse is false of the code: required 2-cycle accepted (K-C09-cycle)"),
         ("Props.C09.C09_resolved_completely", "type expansion = reachability")),
-    runs=[{"cmd": ["c09-typegraph"]}],
+    runs=[{"cmd": ["c09-typegraph"]}, {"cmd": ["c09-model"]}],
     partial="exactness of the recursion check is refuted (known finding K-C09-cycle); missing-type errors, UsedUserTypes and termination are explored on the real code",
     level_text="Proof (partial): the recursion DFS as coded never rejects a type graph whose root is inhabited (theorem, all graphs); the converse is refuted by a proved counterexample that is a known finding of the code; the validator's type expansion reaches exactly the reachable alternatives. Search: generated type graphs with every reference form: missing types (1302), UsedUserTypes, verdict vs least-fixpoint inhabitation and vs the DFS-as-coded, termination of Check/Validate/Example in child processes.",
     level_note="Trusted: Lean kernel; graph model validated by the exploration (as-coded reference agrees with real Check); K-C09-cycle, K-C09-orrule1303 known findings by class.",
@@ -241,6 +241,9 @@ P["C16"] = dict(
         ("Props.C16.C16_type_third", "then explicit type"),
         ("Props.C16.C16_precision_fourth", "then precision"),
         ("Props.C16.C16_kind_last", "then the JSON kind"),
+        ("Props.C16.C16_text_mirrors_tree", "plain-JSON schema text (any depth/width/layout, distinct keys): scanner + loader models build exactly one node per value in source order with kinds, parents, children, key spans and literal spans of the text"),
+        ("Props.C16.C16_text_duplicate_key", "otherwise error 402 at the first key that repeats an earlier key of its object (after decoding)"),
+        ("Props.C16.C16_text_total", "every object either has pairwise distinct decoded keys or a first duplicate"),
         ("Props.C16.C16_rules_order", "rules listed in constraint-map order, types hidden"),
         ("Props.C16.C16_annotation_binds_last_node", "loader model: an annotation binds to the node created last"),
         ("Props.C16.C16_rule_needs_exactly_one_node", "loader model: rules need exactly one node on the line (803 / 804)")),
